@@ -178,7 +178,17 @@ def form_to_aw(form: dict) -> dict:
 
 
 NUMERIC_TEXTS = ["0", "1", "7", "42", "-3", "1.5", "0.25", "-2.75", "3.14159", "100", "2024", "TRUE", "FALSE",
-                 "1e3", "007", "1.0", "1.50", "12345678901", "0.1", "-0", "1,5", "true", "٣"]
+                 "1e3", "007", "1.0", "1.50", "12345678901", "0.1", "-0", "1,5", "true", "٣",
+                 # doubles whose shortest round-tripping spelling has 16-17 significant digits
+                 "3.141592653589793", "0.3333333333333333", "-33.86785123456789", "2.718281828459045",
+                 "0.30000000000000004", "1.4142135623730951", "151.20929999999998", "0.1234567890123456"]
+
+
+def precise_decimal(rng: random.Random) -> str:
+    """A random double spelled by its shortest round-tripping decimal (mostly 15-17 significant digits)."""
+    f = rng.choice([rng.random(), rng.uniform(-180, 180), rng.uniform(-1e6, 1e6), 1 / rng.randint(3, 99), rng.random() * 10 ** rng.randint(-5, 8)])
+    t = repr(f)
+    return t if C.RE_DEC.match(t) else "0.1"
 
 
 def has_interior_blank(sheet: dict) -> bool:
@@ -228,7 +238,7 @@ def enrich(rng: random.Random, aw: dict, knobs: dict) -> dict:
             for r in sheet["rows"]:
                 for i, h in enumerate(sheet["header"]):
                     if i < len(r) and r[i] and (h.startswith(("label", "hint")) or h in ("constraint_message",)) and rng.random() < 0.35:
-                        r[i] = rng.choice(NUMERIC_TEXTS)
+                        r[i] = rng.choice(NUMERIC_TEXTS) if rng.random() < 0.7 else precise_decimal(rng)
         if choices is not None and rng.random() < 0.5:
             ni = choices["header"].index("name") if "name" in choices["header"] else None
             if ni is not None:
@@ -449,9 +459,6 @@ def xlsx_representable(aw: dict) -> bool:
 KNOWN_SHAPES = {
     "F16": "md/csv drop interior blank rows that xls/xlsx/dict keep",
     "F29": "interior U+00A0 read as a space by xls/xlsx, kept by md/csv/dict",
-    "F26": "csv/dict input crashes on an unrelated extra sheet that md/xls/xlsx skip",
-    "F27": "md: row longer than the header row, or sheet without any row -> IndexError",
-    "F39": "csv text with >= 5 pipe characters and no file_type hint is parsed as Markdown",
 }
 
 
@@ -471,22 +478,6 @@ def judge(ctx, case, container, channel, mode, obs, ref_obs, aw_ref, data_text=N
         ctx.fail(Failure("channel-differs", f"{fid}: {KNOWN_SHAPES[fid]} ({container}/{channel}/{mode}, {level})", case,
                          signature=fid, extra=e))
 
-    # crashes with a known site and shape
-    if container == "md" and obs["class"] == "internal" and obs["exc"] == "IndexError" and \
-            obs.get("site") in ("xls2json_backends.py:list_to_dicts", "xls2json_backends.py:process_md_data", "xls2json_backends.py:<listcomp>", "xls2json_backends.py:<dictcomp>") and \
-            (feats["long_row"] or feats["empty_sheet"]):
-        known("F27")
-        return False
-    if container in ("csv", "dict") and obs["class"] == "internal" and obs["exc"] == "TypeError" and \
-            "unexpected keyword argument" in obs["msg"] and feats["extra_sheet"]:
-        known("F26")
-        return False
-    if container == "csv" and mode == "implicit" and channel in ("bytes", "bytesio", "file", "str") and data_text is not None \
-            and data_text[:5000].count("|") >= 5:
-        as_md = run_convert(data_text, file_type=".md") if level == "convert" else run_parse(data_text, file_type=".md")
-        if eq(obs, as_md):
-            known("F39")
-            return False
     # deviations predicted by a transformation of the workbook
     aw_t, which = transform_for(container, aw_ref)
     if which:
@@ -589,6 +580,8 @@ def case_run(ctx, case, scratch: C.Scratch, full: bool = True):
             for level in (("convert", "parse") if first or rng.random() < case.get("p_both", 0.3) else (rng.choice(["convert", "parse"]),)):
                 arg, cleanup, gives_stem = C.deliver(container, data, ch, scratch, stem=stem)
                 try:
+                    if ch == "bytesio_twice":
+                        run_parse(arg, file_type=ft)  # first use of the stream; the second one is observed
                     o = run_convert(arg, file_type=ft) if level == "convert" else run_parse(arg, file_type=ft)
                 finally:
                     cleanup()
@@ -679,7 +672,8 @@ def directed_cases() -> list[dict]:
     # typed cells
     aw = copy.deepcopy(base)
     aw["sheets"][0]["header"] += ["default", "hint"]
-    aw["sheets"][0]["rows"] = [["text", "a", "42", "1.5", "TRUE"], ["integer", "b", "-3", "7", "FALSE"], ["decimal", "c", "0.25", "3.14159", "100"]]
+    aw["sheets"][0]["rows"] = [["text", "a", "42", "1.5", "TRUE"], ["integer", "b", "-3", "7", "FALSE"], ["decimal", "c", "0.25", "3.14159", "100"],
+                               ["decimal", "d", "0.3333333333333333", "-33.86785123456789", "0.30000000000000004"]]
     for seed in range(4):
         out.append(mk(copy.deepcopy(aw), {"p_typed": 1.0, "typing_seed": seed}, stem="my form-1"))
     return out
@@ -751,9 +745,6 @@ def _m(fid, pred):
 MATCHERS = {
     "F16-md-csv-drop-blank-rows": _m("F16", lambda f: f.extra["where"]["container"] in ("md", "csv") and f.extra["features"]["blank_row"] and f.extra.get("transformed")),
     "F29-interior-nbsp": _m("F29", lambda f: f.extra["where"]["container"] in ("xlsx", "xlsm", "xls") and f.extra["features"]["nbsp"] and f.extra.get("transformed")),
-    "F26-csv-dict-extra-sheet": _m("F26", lambda f: f.extra["where"]["container"] in ("csv", "dict") and f.extra["features"]["extra_sheet"]),
-    "F27-md-indexerror": _m("F27", lambda f: f.extra["where"]["container"] == "md" and (f.extra["features"]["long_row"] or f.extra["features"]["empty_sheet"])),
-    "F39-csv-pipes-sniffed-as-md": _m("F39", lambda f: f.extra["where"]["container"] == "csv" and f.extra["where"]["mode"] == "implicit"),
 }
 
 
